@@ -364,6 +364,53 @@ def option_cases(tier):
     for name in SHORTCUTS:
         out.append({"kind": "shortcut", "name": name})
     out.append({"kind": "unbound_tables"})
+    out += pair_cases()
+    return out
+
+
+# C members (probe ids) that a name assigned to sim.integrator defines, read from the setter at HEAD: a canonical name
+# writes the integrator enum only; WH/WHC/WHCKL/WHCKM/WHCKC also write ri_whfast.corrector and ri_whfast.kernel (always,
+# "default" for WH and WHC); "saba<type>" also writes ri_saba.type.  Nothing else (corrector2, coordinates, ...) is defined.
+PID_INTEGRATOR, PID_KERNEL, PID_SABA, PID_CORRECTOR = 0, 4, 7, 10
+WH_SHORTCUT_NAMES = ["WH", "WHC", "WHCKL", "WHCKM", "WHCKC"]
+PID_NAMES = {0: "integrator", 1: "boundary", 2: "gravity", 3: "collision", 4: "ri_whfast.kernel", 5: "ri_whfast.coordinates",
+             6: "ri_trace.peri_mode", 7: "ri_saba.type", 8: "ri_eos.phi0", 9: "ri_eos.phi1", 10: "ri_whfast.corrector"}
+
+
+def integrator_names():
+    """[(name, [probe ids it defines])] for every name accepted by sim.integrator: canonical, WH shortcuts, saba<type>."""
+    import importlib
+    ints = getattr(importlib.import_module("rebound.simulation"), "INTEGRATORS")
+    sabas = getattr(importlib.import_module("rebound.integrators.saba"), "SABA_TYPES")
+    out = [(n, [PID_INTEGRATOR]) for n in ints]
+    out += [(n, [PID_INTEGRATOR, PID_CORRECTOR, PID_KERNEL]) for n in WH_SHORTCUT_NAMES]
+    out += [("saba" + t, [PID_INTEGRATOR, PID_SABA]) for t in sabas] + [("SABA(10,6,4)", [PID_INTEGRATOR, PID_SABA])]
+    return out
+
+
+def pair_cases():
+    """Ordered pairs (previous setting -> name): a name must give the same C configuration whatever was set before.
+    Exhaustive within every option family and, for sim.integrator, over all accepted names x all previous names plus
+    the direct setters of the members the shortcuts define."""
+    import importlib
+    out = []
+    for mod, dname, prefix, path, pid in OPTION_TABLES:
+        if path == "integrator":
+            continue    # covered (with shortcuts) below
+        table = getattr(importlib.import_module(mod), dname)
+        for a in table:
+            for b in table:
+                if a != b:
+                    out.append({"kind": "pair", "prev": [path, a], "set": [path, b], "reads": [pid]})
+    names = integrator_names()
+    kernels = getattr(importlib.import_module("rebound.integrators.whfast"), "WHFAST_KERNELS")
+    sabas = getattr(importlib.import_module("rebound.integrators.saba"), "SABA_TYPES")
+    prevs = [["integrator", n] for n, _ in names] + [["ri_whfast.kernel", k] for k in kernels] + \
+            [["ri_whfast.corrector", c] for c in (0, 3, 11, 17)] + [["ri_saba.type", t] for t in sabas]
+    for n, reads in names:
+        for pv in prevs:
+            if pv != ["integrator", n]:
+                out.append({"kind": "pair", "prev": pv, "set": ["integrator", n], "reads": reads})
     return out
 
 
@@ -439,6 +486,27 @@ def run_option(case, ctx):
         if "corrector" in exp and P.c18_get_int(ctypes.addressof(sim), 10) != exp["corrector"]:
             raise Violation("sim.integrator = %r: C ri_whfast.corrector is %d, expected %d"
                             % (case["name"], P.c18_get_int(ctypes.addressof(sim), 10), exp["corrector"]))
+    elif kind == "pair":
+        (ppath, pval), (path, name), reads = case["prev"], case["set"], case["reads"]
+        ctx.cls("pair/" + path)
+        fresh = rebound.Simulation()
+        sim = rebound.Simulation()
+        try:
+            rb.setpath(fresh, path, name)
+            rb.setpath(sim, ppath, pval)
+            rb.setpath(sim, path, name)
+        except Exception as e:
+            raise Violation("sim.%s = %r; sim.%s = %r raises %s: %s" % (ppath, pval, path, name, type(e).__name__, e))
+        for pid in reads:
+            a = P.c18_get_int(ctypes.addressof(fresh), pid)
+            b = P.c18_get_int(ctypes.addressof(sim), pid)
+            if a != b:
+                raise Violation("sim.%s = %r gives C %s = %d on a fresh simulation but %d after sim.%s = %r: the name does "
+                                "not map to one C configuration" % (path, name, PID_NAMES[pid], a, b, ppath, pval),
+                                signature="%s[%r] after %s[%r]" % (path, name, ppath, pval))
+        if rb.getpath(sim, path) != rb.getpath(fresh, path):
+            raise Violation("sim.%s = %r reads back as %r on a fresh simulation but as %r after sim.%s = %r"
+                            % (path, name, rb.getpath(fresh, path), rb.getpath(sim, path), ppath, pval))
     elif kind == "unbound_tables":
         # make new name tables visible: every module-level {str: int} dict with an upper-case name must be bound above
         import pkgutil
